@@ -61,4 +61,6 @@ func init() {
 	regProp(&PropSpec{ID: "C02", Level: "model_checking", Groups: []string{"csproto"}, QuickTimeout: 600, ThorTimeout: 3000})
 	regProp(&PropSpec{ID: "C03", Level: "model_checking", Groups: []string{"csproto"}, QuickTimeout: 600, ThorTimeout: 3000})
 	regProp(&PropSpec{ID: "C19", Level: "model_checking", Groups: []string{"csproto"}, QuickTimeout: 600, ThorTimeout: 3000})
+	regProp(&PropSpec{ID: "C13", Level: "model_checking", Groups: []string{"lazyproto"}, QuickTimeout: 600, ThorTimeout: 3000})
+	regProp(&PropSpec{ID: "C14", Level: "model_checking", Groups: []string{"lazyproto"}, QuickTimeout: 600, ThorTimeout: 3000})
 }
